@@ -2,7 +2,7 @@
 
 Payload grammar (s-expressions as nested lists of str):
 
-  (c26 (eps -|q)
+  (c26 (eps -|q) [(env G|F)]                     G (default): the global Environment; F: a fresh Environment
        (fl (name T|F|int)*)                       Boolean fluents (init T/F) and int fluents (init = the integer)
        (acts A*)
        (teff (t fl-effect)*)                      timed effects at GLOBAL_START + t          (t a rational >= 0)
@@ -15,13 +15,13 @@ Payload grammar (s-expressions as nested lists of str):
   lit ::= (fl T) | (fl F) | (fl ge k) | (fl le k)
   E   ::= (fl T) | (fl F) | (fl set k) | (fl inc k) | (fl dec k)
 
-Everything is built in the GLOBAL environment: `_convert_to_stn` creates its mock-up action and the event actions there.
 """
 import warnings
 from fractions import Fraction as F
 
 warnings.simplefilter("ignore")
 import unified_planning as up
+from unified_planning.environment import Environment
 from unified_planning.model import (DurativeAction, Fluent, InstantaneousAction, Problem, Timing, Timepoint,
                                     TimepointKind, TimeInterval)
 from unified_planning.model.timing import DurationInterval
@@ -66,8 +66,20 @@ class Built:
     pass
 
 
+def fresh_env(p):
+    try:
+        return sec(p, "env")[0] == "F"
+    except KeyError:
+        return False
+
+
 def build(p):
-    env = up.shortcuts.get_environment()
+    if fresh_env(p):
+        env = Environment()               # a problem of its own Environment (optional section `(env F)`)
+        env.credits_stream = None
+        env.error_used_name = False
+    else:
+        env = up.shortcuts.get_environment()
     em = env.expression_manager
     B = Built()
     P = Problem("c26", env)
@@ -77,10 +89,10 @@ def build(p):
     fl = {}
     for name, init in sec(p, "fl"):
         if init in ("T", "F"):
-            f = Fluent(name, BoolType(), environment=env)
+            f = Fluent(name, env.type_manager.BoolType(), environment=env)
             P.add_fluent(f, default_initial_value=(init == "T"))
         else:
-            f = Fluent(name, IntType(), environment=env)
+            f = Fluent(name, env.type_manager.IntType(), environment=env)
             P.add_fluent(f, default_initial_value=int(init))
         fl[name] = f
 
